@@ -24,7 +24,7 @@ func init() { rt.Register(&c10{}) }
 
 func (c10) ID() string { return "C10" }
 
-var c10Texts = []string{"", "a", "Ab", "a,b", ",", "12", "-3", "007", "1.5", "-0.25", "x1", "0.1", "3.14159", "a,b,c", "a-b", "1,2,3", "0.5,1.5", "Hello World", "abab", "-0.3", "16777217", "10", "zzz", "1,2", "3,4,5", "a:b:c", "k_v", "A", "1e3", " 1", ".5", "010", "-025", "0100", "00012", "0.0078125", "-3.00390625", "0.0009765625", "1e-7", "123456.7890625", "-9223372036854775808", "+9223372036854775807", "00000000000000000000042", "-1000000000000000000", "9223372036854775808"}
+var c10Texts = []string{"", "a", "Ab", "a,b", ",", "12", "-3", "007", "1.5", "-0.25", "x1", "0.1", "3.14159", "a,b,c", "a-b", "1,2,3", "0.5,1.5", "Hello World", "abab", "-0.3", "16777217", "10", "zzz", "1,2", "3,4,5", "a:b:c", "k_v", "A", "1e3", " 1", ".5", "010", "-025", "0100", "00012", "0.0078125", "-3.00390625", "0.0009765625", "1e-7", "123456.7890625", "-9223372036854775808", "+9223372036854775807", "00000000000000000000042", "-1000000000000000000", "9223372036854775808", "Zebra Quiz", "XYZ", "18446744073709551616", "100000000000000000000"}
 var c10JSON = []string{`{"x":1,"y":"s"}`, `{"x":"str","list":[1,2,3]}`, `{"x":2.5,"o":{"y":"deep","z":[10,20]}}`, `{"list":["a","b"],"x":true}`, `{"list":[0.5,1.5,2.5],"o":{"y":"q"}}`, `{"x":"","y":"t","list":[7]}`}
 
 type c10Tmpl struct {
